@@ -95,31 +95,6 @@ theorem limit_yields_diagnostic (t : Tree) (c : DepthCounter) (h : c.value ≤ c
     ones first … -/
 theorem sort_perm {α : Type} (l : List (Key × α)) : (sortDiagnostics l).Perm l := List.mergeSort_perm l _
 
-theorem keyLe_total (a b : Key) : (keyLe a b || keyLe b a) = true := by
-  cases a with
-  | none => simp [keyLe]
-  | some x =>
-    cases b with
-    | none => simp [keyLe]
-    | some y =>
-      obtain ⟨f1, o1⟩ := x; obtain ⟨f2, o2⟩ := y
-      simp only [keyLe, Bool.or_eq_true, Bool.and_eq_true, decide_eq_true_eq, beq_iff_eq]
-      omega
-
-theorem keyLe_trans (a b c : Key) (h1 : keyLe a b = true) (h2 : keyLe b c = true) : keyLe a c = true := by
-  cases a with
-  | none => simp [keyLe]
-  | some x =>
-    cases b with
-    | none => simp [keyLe] at h1
-    | some y =>
-      cases c with
-      | none => simp [keyLe] at h2
-      | some z =>
-        obtain ⟨f1, o1⟩ := x; obtain ⟨f2, o2⟩ := y; obtain ⟨f3, o3⟩ := z
-        simp only [keyLe, Bool.or_eq_true, Bool.and_eq_true, decide_eq_true_eq, beq_iff_eq] at *
-        omega
-
 theorem sort_sorted {α : Type} (l : List (Key × α)) :
     (sortDiagnostics l).Pairwise (fun a b => keyLe a.1 b.1 = true) :=
   List.pairwise_mergeSort (fun a b c h1 h2 => keyLe_trans a.1 b.1 c.1 h1 h2)
